@@ -97,6 +97,12 @@ class Report:
 
     # -- output ----------------------------------------------------------------------------
     def finish(self):
+        # fail closed: a construct or callee the engine could not interpret on an analysed data path means the verdicts above were
+        # reached without seeing all of the code - that is a finding of its own, never a pass
+        for u in sorted(set(self.unmodelled)):
+            key = "UNMODELLED/" + re.sub(r"\s+at\s+\S+:\d+:\d+.*$", "", u)[:160]
+            if key not in {k for k, _, _ in self.obligations}:
+                self.ob(key, False, "not interpreted on an analysed path (extend rules/summaries.py or the engine, then re-run): " + u, nontrivial=False)
         known, fixed = load_known()
         vdir = os.path.join(EVID, self.pid + ".violations")
         os.makedirs(EVID, exist_ok=True)
